@@ -45,7 +45,9 @@ def entries(mat):
     import scipy.sparse as sp
     if not sp.issparse(mat):
         raise TypeError("operator returned %s, not a scipy sparse matrix" % type(mat).__name__)
+    raw_nnz = int(mat.nnz)            # stored coefficients as returned (duplicates of a coo matrix and explicit zeros included)
     co = sp.coo_matrix(mat)
+    raw_zeros = int(np.sum(co.data == 0))
     co.sum_duplicates()
     cplx = np.iscomplexobj(co.data)
     out = []
@@ -58,7 +60,8 @@ def entries(mat):
             if v == 0:
                 continue
             out.append([int(i), int(j), fl(v)])
-    return {"shape": [int(mat.shape[0]), int(mat.shape[1])], "ent": out, "complex": bool(cplx),
+    return {"shape": [int(mat.shape[0]), int(mat.shape[1])], "ent": out, "complex": bool(cplx), "nnz": raw_nnz,
+            "stored_zeros": raw_zeros,
             "format": type(mat).__name__}
 
 
